@@ -61,7 +61,9 @@ class IndexDomain(ArrNormDomain):
         return Sym(self.R.atom(name))
 
     def array(self, label, *lens):
-        return Shaped(Tup([self.length(n) if isinstance(n, str) else n for n in lens]), label)
+        a = Shaped(Tup([self.length(n) if isinstance(n, str) else n for n in lens]), label)
+        a.is_input = True          # made by a rule as an argument of the routine under analysis (not the residue of some arithmetic)
+        return a
 
     # -- integer-affine forms ---------------------------------------------
     def affine(self, r):
